@@ -56,6 +56,41 @@ def run(ctx, args, files=None, env=None, name="run", timeout=120, keep=False, pr
     return r
 
 
+def run_history(ctx, steps, files=None, env=None, name="hist", timeout=120):
+    """several commands one after the other in ONE scratch directory (steps: list of argument lists);
+    returns one Run per step, each with the directory contents as they were after that step.  Files the
+    verif observer writes (dump.txt) are removed before every step so that each step's own dump is seen."""
+    d = os.path.join(ctx.work, "cli_" + name)
+    shutil.rmtree(d, ignore_errors=True)
+    os.makedirs(d)
+    for fn, text in (files or {}).items():
+        with open(os.path.join(d, fn), "w") as f:
+            f.write(text)
+    e = dict(os.environ)
+    for k in ("VERIF_WRITER", "VERIF_SLICE_ORDER", "VERIF_DUMP_SOLUTION"):
+        e.pop(k, None)
+    e.update(env or {})
+    out = []
+    for args in steps:
+        try:
+            os.remove(os.path.join(d, "dump.txt"))
+        except OSError:
+            pass
+        r = Run()
+        try:
+            p = subprocess.run([BIN] + list(args), cwd=d, env=e, stdout=subprocess.PIPE, stderr=subprocess.PIPE, text=True, timeout=timeout)
+            r.status, r.stdout, r.stderr, r.timeout = p.returncode, p.stdout, p.stderr, False
+        except subprocess.TimeoutExpired:
+            r.status, r.stdout, r.stderr, r.timeout = -9, "", "", True
+        r.files = {}
+        for fp in sorted(glob.glob(os.path.join(d, "*"))):
+            if os.path.isfile(fp):
+                r.files[os.path.basename(fp)] = open(fp, errors="replace").read()
+        out.append(r)
+    shutil.rmtree(d, ignore_errors=True)
+    return out
+
+
 def read_dump(text):
     """The observer hook's dump -> dict(n, maxerror, K entries, F, U) in the pipeline's format."""
     out = {"KEntries": [], "F": [], "U": [], "MaxError": None}
@@ -133,6 +168,15 @@ def c05_cli(ctx):
                 ctx.violation("solve failed (exit %d) without any message" % r.status, {"cli": case})
             elif dump and fn.startswith("zz_cantilever"):
                 ctx.violation("solve failed on a plain cantilever: " + r.stderr[-200:], {"cli": case})
+    # histories in one directory: what an earlier successful run left behind must not stand in for a later run
+    for second in (["-e", "1e-300"], ["-w", "-e", "1e-300"], ["-s", "-e", "1e-300"]):
+        h = run_history(ctx, [["solve", "zz_cantilever.inkfem"], ["solve"] + second + ["zz_cantilever.inkfem"]],
+                        files={"zz_cantilever.inkfem": canti}, env={"VERIF_DUMP_SOLUTION": "dump.txt"}, name="c05h")
+        checked += 2
+        if h[0].status == 0 and h[1].status == 0:
+            ctx.violation("after a successful solve in the same directory, solve %s exits 0 although that error cannot be met (%s)" % (
+                " ".join(second), "the equations were not even solved again" if "dump.txt" not in h[1].files else "residual not enforced"),
+                {"cli": {"history": [["solve", "zz_cantilever.inkfem"], ["solve"] + second + ["zz_cantilever.inkfem"]], "Text": canti, "exit": [h[0].status, h[1].status]}})
     ctx.coverage.setdefault("cli_runs", 0)
     ctx.coverage["cli_runs"] += checked
     ctx.log("command-line contract checked on %d runs (shipped examples, a mechanism, an unreachable error)" % checked)
